@@ -22,7 +22,11 @@ BufferedEofNoClose(cfg, e) ==
   /\ ~cfg.eofClose /\ cfg.buffered # {}
   /\ e.res = "err" /\ e.ekind = "eof" /\ e.has_id /\ e.id \in cfg.buffered /\ ~e.has_size /\ ~e.has_partial
 
-(* DEV_ASYNC_STRADDLE (C20).  TagIteratorAsync performs exactly one source read per next()     *)
+(* DEV_ASYNC_STRADDLE (C20) - repaired in /repo (fix: the async iterator took the end of the   *)
+(* bytes received so far for the end of the input); no longer listed in known_findings.txt, so  *)
+(* this action is never enabled and a straddle failure is a violation again.  Kept as the       *)
+(* description of the old behaviour (MC_Async, Wrapper = "one_read"):                            *)
+(* TagIteratorAsync performed exactly one source read per next()                                *)
 (* and then asks the inner blocking iterator, which treats "no more bytes in the cursor" as     *)
 (* end of input: a tag that is not completely inside the bytes read so far yields               *)
 (* UnexpectedEOF / an early None, and an input that ends in an error repeats it forever.        *)
